@@ -23,6 +23,36 @@ except ImportError:  # pragma: no cover
     def is_tracing():
         return False
 
+class Diverged(BaseException):
+    """slide() evaluated more expressions for one decision than any terminating run of the catalogue programs needs."""
+
+
+class _Budget:
+    n = 0
+    limit = 3000
+
+
+import nemoguardrails.colang.v1_0.runtime.sliding as _sliding  # noqa: E402
+
+_orig_eval = _sliding.eval_expression
+
+
+def _counted_eval(expr, context):
+    _Budget.n += 1
+    if _Budget.n > _Budget.limit:
+        raise Diverged("more than %d expression evaluations in one compute_next_steps call" % _Budget.limit)
+    return _orig_eval(expr, context)
+
+
+_sliding.eval_expression = _counted_eval
+_orig_cns = compute_next_steps
+
+
+def compute_next_steps(history, flow_configs, rails_config, processing_log):  # noqa: F811
+    _Budget.n = 0
+    return _orig_cns(history, flow_configs, rails_config, processing_log)
+
+
 FUNCTIONS = [
     "nemoguardrails.colang.v1_0.runtime.flows.compute_next_steps",
     "nemoguardrails.colang.v1_0.runtime.flows.compute_next_state",
@@ -259,6 +289,16 @@ def follows(x: int, y: int, r0: int, r1: int, r2: int, u0: int, u1: int, u2: int
     post: _
     """
     global LAST_INFO
+    try:
+        return _follows(x, y, r0, r1, r2, u0, u1, u2, u3)
+    except Diverged as e:
+        if not is_tracing():
+            LAST_INFO = {"program": SRC, "context": {"x": x, "y": y}, "why": "the decision does not terminate: %s" % e}
+        return False
+
+
+def _follows(x, y, r0, r1, r2, u0, u1, u2, u3):
+    global LAST_INFO
     stubs.reset()
     with _untraced():
         used = copy.deepcopy(_PRISTINE)
@@ -273,7 +313,11 @@ def follows(x: int, y: int, r0: int, r1: int, r2: int, u0: int, u1: int, u2: int
     why = None
     exp = next(ref)
     for _ in range(STEPS):
-        steps = compute_next_steps(hist, used, None, [])
+        try:
+            steps = compute_next_steps(hist, used, None, [])
+        except Diverged as e:
+            why = "the decision does not terminate: %s" % e
+            break
         act = _actionable(steps)
         # the runtime feeds context updates back into the history before acting
         for s in steps:
@@ -346,7 +390,7 @@ SPEC = {
               "immediately), execute with and without result}; initial context x in 0..3, y in 0..1, action return values in 0..2 (all symbolic); at each user turn the user follows the flow or says "
               "an unrelated intent (symbolic); dialogs of 6 (quick) / 9 (thorough) decision points, each decision recomputed from the whole history",
     "outside": "competing intents / several dialog flows / flow priorities (C01, C16 exercise the shipped flows); when/else when; flows with parameters",
-    "assumptions": ["programs are generated from small ASTs, rendered to Colang 1.0 text and parsed by the real parser once per program (untraced)",
+    "assumptions": ["a decision that evaluates more than 3000 expressions (the catalogue needs < 100) is reported as non-terminating", "programs are generated from small ASTs, rendered to Colang 1.0 text and parsed by the real parser once per program (untraced)",
                     "context updates decided by the runtime are appended to the history as RuntimeV1_0.generate_events does"],
     "explanation": "Before the real dialog two unrelated conversations with other context values are decided on the same flow_configs object. Oracle: a generator-based reference interpreter of the program AST (sequencing, if/else, while/break/continue, assignment, subflow call inlined, execute with result); "
                    "after every event the runtime's actionable next step must be the reference's next statement (none while waiting for the user); finally compute_next_steps on the used "
